@@ -42,7 +42,7 @@ TInit == Init /\ l = 1 /\ Trace[1].ev = "reset"
 TReset == /\ Trace[l + 1].ev = "reset"
           /\ now' = 1
           /\ ents' = [x \in Indices |-> EmptyMap] /\ live' = [x \in Indices |-> "none"]
-          /\ timers' = {} /\ panic' = "" /\ res' = "" /\ rres' = ""
+          /\ timers' = {} /\ panic' = "" /\ res' = "" /\ rres' = "" /\ kf' = ""
           /\ ref' = [x \in Indices |-> EmptyMap]
           /\ nops' = 0 /\ hist' = <<>>
 \* the harness only replays legal operations; legality (L1-L4) is re-checked here against the
@@ -53,10 +53,16 @@ StepOf(r) == \/ r.ev = "append" /\ LegalAppend(r.x, r.b) /\ AppendEntry(r.x, r.b
              \/ r.ev = "put"    /\ PutEntryA(r.x, r.b)
              \/ r.ev = "del"    /\ DelEntry(r.x, r.b)
              \/ r.ev = "tick"   /\ Tick
+\* Every behaviour is judged on its own.  When a step is the cause of an open known finding (the
+\* spec, which models the code as it is, sets kf), <<"KF", kf, line>> is printed and the remaining
+\* rows of that behaviour are skipped (the store is corrupt from there on); the next reset starts
+\* the next behaviour, so one behaviour tripping a known finding never masks another one.
 TNext == /\ l < Len(Trace) /\ l' = l + 1
          /\ LET r == Trace[l + 1] IN
               \/ TReset
-              \/ (r.ev # "reset" /\ ~r.panic /\ nops' = nops + 1 /\ StepOf(r) /\ Match(r))
+              \/ (r.ev # "reset" /\ kf # "" /\ UNCHANGED vars)
+              \/ (r.ev # "reset" /\ kf = "" /\ ~r.panic /\ nops' = nops + 1 /\ StepOf(r) /\ Match(r)
+                  /\ (kf' = "" \/ PrintT(<<"KF", kf', l + 1>>)))
 TSpec == TInit /\ [][TNext]_tvars
 
 Post == LET d == TLCGet("stats").diameter IN PrintT(<<"HWM", d>>) /\ d = Len(Trace)
